@@ -24,7 +24,8 @@ EXPLANATION = (
     " ROUNDS 5-6: R13-ASSERTED-CAPACITY: a vector whose pushes assert len < capacity is pre-allocated with the caller's bound, unreduced; C14.R7 digit tables shared (which bytes a literal swallows). Panic-site keys no longer contain the asserted expression text."
     " ROUND 7: R6-LOOP-STARTS-AT-STARTER: inside the declaration loop the position of the next declaration is always a find_next(starts_declaration) result, on every branch (the loop bound counts such iterations)."
     " ROUND 8: R14-ALLOC-FAILURE-PROPAGATED: none of the 225 fallible calls (Result<_, TokenAllocError | ParsingError | LexingError>) of the second-generation lexer and parser has its result thrown away; R11-TWO-MARKERS also covers Tokens::empty_with_one_error (the stream for E101/E102/E103 ends in two EndOfSource in all three parallel arrays)."
-    " ROUND 9: R15-COUNTER-BOUNDED-IN-LOOP: each u8 counter incremented once per iteration of a loop over input tokens (two `depth`, one `address_depth`) is compared with its limit inside that loop.")
+    " ROUND 9: R15-COUNTER-BOUNDED-IN-LOOP: each u8 counter incremented once per iteration of a loop over input tokens (two `depth`, one `address_depth`) is compared with its limit inside that loop."
+    " ROUND 10: R5-E103 'push_integer_payload bounded by MAX_NUM_PAYLOADS': the payload vector has a soft capacity and grows; its E103 bound is the constant, not the capacity.")
 
 PT = "delta::parser::parse_tree::"
 TOK = "delta::parser::tokens::Tokens::"
